@@ -90,6 +90,20 @@ def run(ctx):
         ctx.ob("R1", "pairing(%s)" % short, r1 and n_ret > 0, ctx.where(F), w1 or "timer started once and cancelled once on all %d returning paths; searches inside the window" % n_ret)
         ctx.ob("R3", "guarded-report(%s)" % short, r3 and n_ans > 0, ctx.where(F), w3 or "each of %d reported answers follows a stop-flag read (false) taken after its search" % n_ans)
         ctx.ob("R4", "answer-text(%s)" % short, r4 and n_ans > 0, ctx.where(F), w4 or "format_solution(query, query.replace_variables(Some-payload of that search))")
+    # ---- R1b: cancel_timer really cancels: on every returning path the timer handle it was given is cancelled
+    # (dropping the handle does not stop a thread_timer: the thunk would still set the stop flag later, in the middle
+    #  of whatever query runs then)
+    ok, why, n = True, "", 0
+    tp = ("param", 1, CT.locals[1].get("name") or "")
+    for p in Walker(CT, max_visits=2, inline=pol).paths():
+        if p.end != "return":
+            continue
+        n += 1
+        cs = [e for e in p.calls() if e["callee"].endswith("ThreadTimer::cancel") and e["args"] and
+              mentions(e["args"][0], lambda t: t == tp)]
+        if not cs:
+            ok, why = False, "a returning path of cancel_timer does not call ThreadTimer::cancel on the timer it was given"
+    ctx.ob("R1", "cancel-cancels", ok and n > 0, ctx.where(CT), why or "ThreadTimer::cancel(timer) on all %d returning paths" % n)
     # ---- R3b: the timeout message is produced only after the flag was read as set ---------------------------------
     for nm in ("solutions::solve", "solutions::solve_all"):
         F = prog.one(nm)
